@@ -125,6 +125,46 @@ def c04_native(seeds=(1, 2, 3, 4)):
             if why:
                 return n, dict(simulator=name, tmin=tmin, tmax=tmax, seed=seed, observed=why,
                                arrays=[[float(x) for x in a][:12] for a in arrs])
+    # the same runs through the full-data object: its population summary obeys the same row conditions (rows of equal time are
+    # merged by summary(), so "one move per row" is not asked here)
+    import EoN
+    names = ['fast_SIR', 'fast_nonMarkov_SIR', 'Gillespie_SIR', 'fast_SIS', 'fast_nonMarkov_SIS', 'Gillespie_SIS', 'Gillespie_simple_contagion',
+             'Gillespie_complex_contagion', 'discrete_SIR', 'basic_discrete_SIR', 'basic_discrete_SIS']
+    orig = {nm: getattr(EoN, nm) for nm in names}
+    try:
+        for nm in names:
+            setattr(EoN, nm, (lambda f: (lambda *a, **k: f(*a, **dict(k, return_full_data=True))))(orig[nm]))
+        for name, kind, tmin, tmax, discrete, f in cases:
+            if name.startswith('percolation_based'):
+                continue
+            for seed in seeds[:2]:
+                n += 1
+                random.seed(seed); np.random.seed(seed)
+                try:
+                    sim = f()
+                    t, D = sim.summary()
+                except Exception as e:
+                    return n, dict(simulator=name + ' (return_full_data=True)', tmin=tmin, tmax=tmax, seed=seed, observed='%s: %s' % (type(e).__name__, e))
+                cols = [D[k] for k in (('S', 'I', 'R') if kind == 'SIR' else ('S', 'I'))]
+                tot = sum(int(c[0]) for c in cols)
+                why = None
+                if float(t[0]) != float(tmin):
+                    why = 'summary starts at %s, tmin is %s' % (t[0], tmin)
+                for i in range(len(t)):
+                    if why:
+                        break
+                    if i and not (t[i - 1] <= t[i]):
+                        why = 'summary times decrease at row %d' % i
+                    elif i and not discrete and not (t[i] < tmax):
+                        why = 'the full-data object reports an event at time %s although tmax=%s' % (t[i], tmax)
+                    elif any(int(c[i]) < 0 for c in cols) or sum(int(c[i]) for c in cols) != tot:
+                        why = 'summary counts at row %d are %s (total at tmin %d)' % (i, [int(c[i]) for c in cols], tot)
+                if why:
+                    return n, dict(simulator=name + ' (return_full_data=True)', tmin=tmin, tmax=tmax, seed=seed, observed=why,
+                                   summary=[[float(x) for x in t][:12]] + [[int(x) for x in c][:12] for c in cols])
+    finally:
+        for nm in names:
+            setattr(EoN, nm, orig[nm])
     return n, None
 
 
@@ -597,6 +637,55 @@ def c13_native(trials=400):
             if a != b:
                 wit['observed'] = 'history of node %s is %s, the reference semantics gives %s' % (u, a, b)
                 return n, wit
+    # ---- horizon boundary: tmax is set EXACTLY onto an event time of the run (binary fractions: float sums are exact); events
+    # at or after tmax are not reported
+    kept = 0
+    for trial in range(600):
+        if kept >= 40:
+            break
+        Nn = rng.randint(2, 5)
+        G = nx.gnp_random_graph(Nn, 0.7, seed=rng.randint(0, 10 ** 6))
+        nodes = list(G.nodes())
+        dur = {(u, k): rng.randint(5, 28) / 8.0 for u in nodes for k in range(6)}
+        dl = {(u, v, k): sorted(rng.sample(range(1, 30), rng.randint(0, 2))) for u in nodes for v in nodes for k in range(6)}
+        duration = lambda u, k: dur[(u, min(k, 5))]
+        delays = lambda u, v, k: [x / 8.0 for x in dl[(u, v, min(k, 5))]]
+        seeds = [rng.choice(nodes)]
+        tmin = rng.choice([0, 0.5, -2.25])
+        long = sis_reference(G, seeds, tmin, tmin + 6.0, duration, delays)
+        if long is None:
+            continue
+        ev_times = sorted({x for u in nodes for x in long[u][0] if x > tmin})
+        if not ev_times:
+            continue
+        tmax = rng.choice(ev_times)
+        want = sis_reference(G, seeds, tmin, tmax, duration, delays)
+        if want is None:
+            continue
+        kept += 1
+        n += 1
+        calls = {}
+        def rec_time_fxn(u):
+            k = calls.get(u, 0); calls[u] = k + 1
+            return duration(u, k)
+        def trans_time_fxn(u, v, d):
+            return list(delays(u, v, calls[u] - 1))
+        wit = dict(edges=list(G.edges()), nodes=nodes, seeds=seeds, tmin=tmin, tmax=tmax, note='tmax coincides with an event time of the longer run',
+                   durations={str(k): v for k, v in dur.items() if k[1] < 2}, delays={str(k): [x / 8.0 for x in v] for k, v in dl.items() if k[2] < 2 and v and G.has_edge(k[0], k[1])})
+        try:
+            sim = EoN.fast_nonMarkov_SIS(G, trans_time_fxn=trans_time_fxn, rec_time_fxn=rec_time_fxn, initial_infecteds=seeds, tmin=tmin, tmax=tmax, return_full_data=True)
+        except Exception as e:
+            wit['observed'] = '%s: %s' % (type(e).__name__, e)
+            return n, wit
+        for u in nodes:
+            ht, hs = sim.node_history(u)
+            a = [(round(float(x), 9), s) for x, s in zip(ht, hs)]
+            b = [(round(float(x), 9), s) for x, s in zip(*want[u])]
+            if a != b:
+                wit['observed'] = 'history of node %s is %s, the reference semantics (events strictly before tmax) gives %s' % (u, a, b)
+                return n, wit
+    if kept < 10:
+        raise RuntimeError('boundary trials: only %d tie-free trials' % kept)
     return n, None
 
 
@@ -636,6 +725,10 @@ def c03_specs():
         return D
     specs.append(('SIS', dg([('I', 'S', dict(rate=1.0))]), dg([(('I', 'S'), ('I', 'I'), dict(rate=2.0))]), ['S', 'I']))
     specs.append(('SIR weighted', dg([('I', 'R', dict(rate=1.5, weight_label='nw'))]), dg([(('I', 'S'), ('I', 'I'), dict(rate=0.5, weight_label='ew'))]), ['S', 'I', 'R']))
+    specs.append(('SIS weighted (recurrent: items re-enter the weighted candidate lists)', dg([('I', 'S', dict(rate=2.0, weight_label='nw'))]),
+                  dg([(('I', 'S'), ('I', 'I'), dict(rate=1.5, weight_label='ew'))]), ['S', 'I']))
+    specs.append(('SIRS with rate functions (recurrent)', dg([('I', 'R', dict(rate=1.0, rate_function=lambda G, node: 1.0 + 0.5 * (node % 3))), ('R', 'S', dict(rate=3.0, rate_function=lambda G, node: 0.5 + 0.25 * (node % 2)))]),
+                  dg([(('I', 'S'), ('I', 'I'), dict(rate=1.0, rate_function=lambda G, u, v: 0.5 + 0.3 * (u % 2) + 0.2 * (v % 3)))]), ['S', 'I', 'R']))
     specs.append(('SIRS', dg([('I', 'R', dict(rate=1.0)), ('R', 'S', dict(rate=0.25))]), dg([(('I', 'S'), ('I', 'I'), dict(rate=1.0))]), ['S', 'I', 'R']))
     specs.append(('SEIR', dg([('E', 'I', dict(rate=0.7)), ('I', 'R', dict(rate=1.0))]), dg([(('I', 'S'), ('I', 'E'), dict(rate=1.3))]), ['S', 'E', 'I', 'R']))
     specs.append(('competing', dg([('A', 'S', dict(rate=1.0)), ('B', 'S', dict(rate=0.5))]),
